@@ -5,7 +5,7 @@ use crate::compile::compile_group;
 use crate::engine::{self, Failure, Finish, Outcome, PropCheck, RunCfg, Tier};
 use crate::findings::Findings;
 use crate::gen;
-use crate::gen::history::{apply_step, Step};
+use crate::gen::history::{apply_step, SlotOp, Step};
 use crate::jsworker::Worker;
 use crate::model::data::JsVal;
 use crate::model::wxml::Group;
@@ -21,6 +21,14 @@ pub struct Case {
     pub d0: JsVal,
     pub steps: Vec<Step>,
     pub style: u64,
+    /// per step: what dynamic-slot components do to their slots meanwhile
+    #[serde(default)]
+    pub slot_ops: Vec<Vec<SlotOp>>,
+}
+
+/// development switch while the slot-operation stage is being validated (never set by registered commands)
+fn slot_ops_enabled() -> bool {
+    std::env::var("GEV_SLOT_OPS").is_ok()
 }
 
 pub struct C06 {
@@ -32,8 +40,12 @@ impl PropCheck for C06 {
     type Case = Case;
 
     fn strategy(&self) -> BoxedStrategy<Case> {
-        let general = (gen::wxml::group(&self.cfg), gen::data::data_env(2), proptest::collection::vec(gen::history::step(), 1..=self.max_steps), any::<u64>())
-            .prop_map(|(group, d0, steps, style)| Case { group, d0, steps, style })
+        let general = (gen::wxml::group(&self.cfg), gen::data::data_env(2), proptest::collection::vec(gen::history::step(), 1..=self.max_steps), any::<u64>(), gen::history::slot_ops(self.max_steps))
+            .prop_map(|(group, d0, steps, style, slot_ops)| {
+                // only where a dynamic-slot component can exist
+                let slot_ops = if slot_ops_enabled() && crate::compile::print_group(&group, style).iter().any(|(_, s)| s.contains("dyn-c")) { slot_ops } else { vec![] };
+                Case { group, d0, steps, style, slot_ops }
+            })
             .boxed();
         prop_oneof![5 => general, 1 => scenario(self.max_steps)].boxed()
     }
@@ -79,8 +91,8 @@ fn scenario(max_steps: usize) -> BoxedStrategy<Case> {
     };
     let member = |o: Expr, m: &str| Expr::Member(Box::new(o), m.to_string());
     let index = |o: Expr, i: &str| Expr::Index(Box::new(o), Box::new(Expr::Num(i.to_string())));
-    (0usize..10, any::<bool>(), any::<bool>(), gen::data::keyed_list(), proptest::collection::vec(gen::data::scalar(), 0..4), gen::data::scalar(), gen::data::scalar(), proptest::collection::vec(gen::history::step(), 1..=max_steps), proptest::collection::vec(gen::history::step_splice(), 1..=max_steps), any::<u64>())
-        .prop_map(move |(shape, keyed, lead, list, c, a, b, steps, steps_splice, style)| {
+    (0usize..12, any::<bool>(), any::<bool>(), gen::data::keyed_list(), proptest::collection::vec(gen::data::scalar(), 0..4), gen::data::scalar(), gen::data::scalar(), proptest::collection::vec(gen::history::step(), 1..=max_steps), proptest::collection::vec(gen::history::step_splice(), 1..=max_steps), any::<u64>(), gen::history::slot_ops(max_steps))
+        .prop_map(move |(shape, keyed, lead, list, c, a, b, steps, steps_splice, style, slot_ops)| {
             // shapes 8, 9 read their arrays through wx:for only: the exact `index.ts` splice tree is sound for them
             let steps = if shape >= 8 { steps_splice } else { steps };
             let for_ = |list: Expr, key: Option<&str>, kids: Vec<Node>| Node::For(Box::new(ForNode { list: Val::Bind(list), item: None, index: None, key: key.map(|k| k.to_string()), kids, carrier: Carrier::Block }));
@@ -109,6 +121,26 @@ fn scenario(max_steps: usize) -> BoxedStrategy<Case> {
                 ],
                 8 => vec![for_(id("list"), if keyed { Some("id") } else { None }, vec![txt(vec![bind(member(id("item"), "v")), lit("|"), bind(id("a")), lit("|"), bind(id("index"))])]), for_(id("c"), None, vec![txt(vec![bind(id("item")), lit(","), bind(id("index"))])])],
                 9 => vec![for_(id("list"), if keyed { Some("id") } else { None }, vec![for_(id("c"), if lead { Some("*this") } else { None }, vec![txt(vec![bind(id("item")), lit("/"), bind(id("index"))])]), txt(vec![bind(member(id("item"), "id"))])])],
+                // content of a dynamic-slot component reading slot values (plain, aliased, shadowed by a loop), outside fields
+                // and both, while the component changes slot values and adds / removes / renames slots
+                10 | 11 => {
+                    use crate::model::wxml::{BlockNode, El, SlotRef};
+                    let sr = |n: &str, al: Option<&str>| SlotRef { name: n.into(), alias: al.map(|x| x.to_string()) };
+                    let el = |slot: Option<&str>, refs: Vec<SlotRef>, kids: Vec<Node>| Node::El(El { tag: "v".into(), attrs: vec![], slot: slot.map(|x| Val::Static(x.into())), slot_refs: refs, kids });
+                    let first = el(
+                        None,
+                        vec![sr("sa", None), sr("sd", Some("al0"))],
+                        vec![txt(vec![bind(id("sa")), lit("|"), bind(id("a")), lit("|"), bind(index(id("al0"), "0"))]), for_(id("al0"), if lead { Some("*this") } else { None }, vec![txt(vec![bind(id("item")), lit(","), bind(id("sa")), lit(","), bind(id("b"))])])],
+                    );
+                    let second = el(Some("s1"), vec![sr("sb", None), sr("item", None)], vec![txt(vec![bind(id("sb")), lit("#"), bind(member(id("item"), "v")), lit("#"), bind(id("b"))])]);
+                    let third = Node::Block(BlockNode {
+                        slot: if keyed { Some(Val::Static("s2".into())) } else { None },
+                        slot_refs: vec![sr("s-c", None)],
+                        kids: vec![el(None, vec![], vec![txt(vec![bind(member(id("sC"), "k"))])]), Node::If(vec![crate::model::wxml::Branch { cond: Some(Val::Bind(member(id("sC"), "k"))), kids: vec![el(None, vec![], vec![txt(vec![lit("Y"), bind(id("a"))])])], carrier: Carrier::Block }])],
+                    });
+                    let host = Node::El(El { tag: "dyn-c".into(), attrs: vec![], slot: None, slot_refs: vec![], kids: vec![first, second, third] });
+                    if shape == 10 { vec![host] } else { vec![for_(id("c"), None, vec![host])] }
+                }
                 // loop inside a called template whose data carries the list and an outside field
                 _ => {
                     named.push(("t2".to_string(), vec![for_(id("list"), if keyed { Some("id") } else { None }, vec![txt(vec![bind(member(id("item"), "v")), lit("~"), bind(id("a"))])])]));
@@ -118,7 +150,7 @@ fn scenario(max_steps: usize) -> BoxedStrategy<Case> {
             let group = Group { files: vec![Tmpl { path: "p".into(), named, body: crate::model::wxml::normalise_nodes(body), ..Default::default() }], scripts: vec![] };
             let mut items: Vec<(String, JsVal)> = vec![("list".into(), list), ("c".into(), JsVal::Arr(c)), ("a".into(), a), ("b".into(), b)];
             gen::data::finish_env(&mut items, vec![], JsVal::Null);
-            Case { group, d0: JsVal::Obj(items), steps, style }
+            Case { group, d0: JsVal::Obj(items), steps, style, slot_ops: if shape >= 10 && slot_ops_enabled() { slot_ops } else { vec![] } }
         })
         .boxed()
 }
@@ -149,10 +181,16 @@ pub fn eval_case(w: &mut Worker, c: &Case) -> Result<Outcome, String> {
         }
     };
     let src0 = compiled.sources[0].1.clone();
-    let req = json!({"kind":"history","bundle":compiled.bundle,"entry":"p","data":datas,"trees":trees});
+    let slot_ops: Vec<Vec<Value>> = c.slot_ops.iter().take(c.steps.len()).map(|ops| ops.iter().map(|o| o.to_json()).collect()).collect();
+    let req = json!({"kind":"history","bundle":compiled.bundle,"entry":"p","data":datas,"trees":trees,"slotOps":slot_ops});
     let resp = w.request(&req).map_err(|e| e.0)?;
     for l in step_labels.iter().flatten() {
         out.labels.push(l.clone());
+    }
+    for ops in c.slot_ops.iter().take(c.steps.len()) {
+        for o in ops {
+            out.labels.push(format!("slot-op:{}", ["set-value", "remove", "insert", "rename", "remove-two"][(o.kind as usize).min(4)]));
+        }
     }
     out.labels.sort();
     out.labels.dedup();
